@@ -757,27 +757,31 @@ fn run_phase(rep: &mut Report, prop: &'static str, n: u64, threads: usize, salt:
                 if i >= n {
                     break;
                 }
-                let rt = match tokio::runtime::Builder::new_multi_thread().worker_threads(2).enable_all().build() {
-                    Ok(rt) => rt,
-                    Err(_) => {
-                        local.inconclusive("real-socket leg: cannot build runtime");
-                        return local;
-                    }
-                };
                 let sub = Rng::sub_seed(seed, i);
-                let r = rt.block_on(async {
-                    if prop == "C03" {
-                        tokio::time::timeout(Duration::from_secs(240), run_c03_one(&mut local, sub, table.clone())).await
-                    } else if prop == "C07" && i % 4 == 3 {
-                        tokio::time::timeout(Duration::from_secs(240), run_pagination_one(&mut local, sub)).await
-                    } else {
-                        tokio::time::timeout(Duration::from_secs(240), run_one(&mut local, prop, sub, table.clone())).await
+                // every scenario on a runtime and an OS thread of its own: the wall-clock watchdog must work even
+                // when a worker of that runtime never yields (nothing is concluded from such a scenario)
+                let (tx, rx) = std::sync::mpsc::channel();
+                let (tier2, table2) = (tier.clone(), table.clone());
+                std::thread::spawn(move || {
+                    let mut one = Report::new(prop, &tier2, seed);
+                    if let Ok(rt) = tokio::runtime::Builder::new_multi_thread().worker_threads(2).enable_all().build() {
+                        rt.block_on(async {
+                            if prop == "C03" {
+                                run_c03_one(&mut one, sub, table2.clone()).await
+                            } else if prop == "C07" && i % 4 == 3 {
+                                run_pagination_one(&mut one, sub).await
+                            } else {
+                                run_one(&mut one, prop, sub, table2.clone()).await
+                            }
+                        });
+                        rt.shutdown_timeout(Duration::from_millis(200));
+                        let _ = tx.send(one);
                     }
                 });
-                if r.is_err() {
-                    local.inconclusive(format!("real-socket leg: scenario {} did not finish within 240 s of wall-clock time", sub));
+                match rx.recv_timeout(Duration::from_secs(240)) {
+                    Ok(one) => local.merge(one),
+                    Err(_) => local.count("real_scenarios_abandoned_by_the_wall_clock_watchdog", 1),
                 }
-                rt.shutdown_timeout(Duration::from_millis(200));
             }
             local
         }));
